@@ -5,6 +5,7 @@
 -/
 import Drx.Lscr
 import Drx.Gen.Mutations
+import Drx.Gen.ModuleState
 import DrxProofs.LscrGen
 import DrxProofs.LscrRegs
 import DrxProofs.LscrFlow
@@ -125,5 +126,17 @@ theorem parser_loops_progress :
     (∀ (r : Ro) (prev : Option Node) (r' : Ro) (rm : Bool),
         rewriteRepeat r prev = .ok (r', rm) → weightList r'.stmts ≤ weightList r.stmts) :=
   ⟨fun _ _ _ _ _ _ h => stepOpcode_advance h, fun _ _ _ _ h => rewriteRepeat_weight h⟩
+
+/-! ### module-level state of the decompiler (regenerated from every module of drxtract/lingosrc on every run) -/
+
+/-- C12, parse side, on the source inventory: no function or method of the decompiler contains a statement that can change state
+    living longer than one decompilation — no `global` / `nonlocal`, no assignment, deletion or mutating call whose base is a
+    module-level name, a class or `cls`, no `setattr` / `globals()` / `__dict__` / cache decorator. (The operand registers of the
+    opcode singletons are written through `self`; they are the subject of `parse_regs_irrelevant`.) -/
+theorem no_writes_to_module_state : Gen.ModuleState.writes = [] := by decide
+
+/-- every module-level or class-level name bound to a container is bound to a list or dict display (a table written in place in
+    the source), never to the result of a call (an object whose state the inventory above could not see) -/
+theorem module_state_is_tables : Gen.ModuleState.holders.all (fun h => h.2.2.2 == "List" || h.2.2.2 == "Dict") = true := by decide
 
 end Drx.C12
